@@ -386,6 +386,28 @@ fn kf_xlsx_table_header_only_does_not_panic() {
     assert_eq!(r.expect("must not panic").unwrap(), true);
 }
 
+#[test]
+fn kf_xlsx_headerless_table_on_sheet_without_values_does_not_panic() {
+    // a freshly inserted table without header row (ref A1:B3) on a sheet that holds no value yet: the stored range is
+    // empty (width 0) and the table rectangle contains (0, 0), the origin an empty range reports
+    let src = fixture("temperature-table.xlsx");
+    let t = String::from_utf8(member(&src, "xl/tables/table1.xml")).unwrap().replace(r#"totalsRowShown="0""#, r#"headerRowCount="0" totalsRowShown="0""#);
+    let sh = String::from_utf8(member(&src, "xl/worksheets/sheet1.xml")).unwrap();
+    let (a, rest) = sh.split_at(sh.find("<sheetData").unwrap());
+    let b = &rest[rest.find("</sheetData>").unwrap() + "</sheetData>".len()..];
+    let sh = format!("{a}<sheetData/>{b}");
+    let bytes = rezip(&src, &[("xl/tables/table1.xml", t.into_bytes()), ("xl/worksheets/sheet1.xml", sh.into_bytes())]);
+    let mut wb: Xlsx<_> = Xlsx::new(Cursor::new(bytes)).unwrap();
+    wb.load_tables().unwrap();
+    let r = std::panic::catch_unwind(std::panic::AssertUnwindSafe(|| wb.table_by_name("Temperature").map(|t| (t.data().start(), t.data().end()))));
+    let (start, end) = r.expect("must not panic (Range::range on an empty range: chunks(0))").unwrap();
+    assert_eq!((start, end), (Some((0, 0)), Some((2, 1))), "the data range of the table is its whole rectangle, all Empty");
+    // and the helper itself
+    let e: calamine::Range<Data> = calamine::Range::empty();
+    let r = std::panic::catch_unwind(|| e.range((0, 0), (1, 1)));
+    assert_eq!(r.expect("Range::range on an empty range must not panic").get_size(), (2, 2));
+}
+
 // C09 / R-ITER, R-POS
 
 fn small_range() -> calamine::Range<Data> {
